@@ -14,6 +14,12 @@ import (
 	"time"
 )
 
+type slowJob struct {
+	wall, solver float64
+	paths        int
+	tag          string
+}
+
 type oblStat struct{ Proved, Failed, Unknown int }
 
 type Violation struct {
@@ -37,28 +43,29 @@ type KnownFinding struct {
 }
 
 type CheckRun struct {
-	ID, Tier string
-	Seed     int
-	Level    string
-	P        *Program
-	Pool     *Pool
-	owner    func(label string) bool
-	obl      map[string]*oblStat
-	fails    []Violation
-	inconcl  []string
-	samples  []interface{}
-	extra    map[string]interface{}
-	assume   []string
-	trusted  []string
-	start    time.Time
-	known    []KnownFinding
-	states   int
-	trans    int
-	validated int
-	exhaustive bool
-	explanation string
-	bounds   map[string]interface{}
+	ID, Tier     string
+	Seed         int
+	Level        string
+	P            *Program
+	Pool         *Pool
+	owner        func(label string) bool
+	obl          map[string]*oblStat
+	fails        []Violation
+	inconcl      []string
+	samples      []interface{}
+	extra        map[string]interface{}
+	assume       []string
+	trusted      []string
+	start        time.Time
+	known        []KnownFinding
+	states       int
+	trans        int
+	validated    int
+	exhaustive   bool
+	explanation  string
+	bounds       map[string]interface{}
 	replayBudget int
+	slow         []slowJob
 	witnessed    int
 	groupKey     func(v Violation) string
 }
@@ -90,6 +97,7 @@ func (cr *CheckRun) note(s string) {
 func (cr *CheckRun) absorb(jobs []Job, res []*JobResult) {
 	for i, jr := range res {
 		j := jobs[i]
+		cr.slow = append(cr.slow, slowJob{jr.WallSec, jr.SolverSec, len(jr.Paths), j.Fn + " " + j.Tag})
 		if jr.Truncated {
 			cr.note("path budget exhausted in " + j.Fn + " " + j.Tag)
 		}
@@ -198,6 +206,7 @@ func (cr *CheckRun) finish() int {
 	sort.Strings(order)
 	violations := 0
 	knownMatched := map[string]int{}
+	knownReplayed := map[string]int{}
 	var knownLines []string
 	seq := 0
 	replayed := 0
@@ -205,9 +214,12 @@ func (cr *CheckRun) finish() int {
 		g := groups[k]
 		v := g.vs[0]
 		kf := cr.matchKnown(v)
-		// replay (bounded number per run); known findings are re-confirmed too, but only once per finding entry
+		if os.Getenv("GOSX_LIST_FAILS") != "" {
+			fmt.Printf("FAILGROUP\t%s\t%s\t%d\n", v.Label, v.Case, len(g.vs))
+		}
+		// replay (bounded number per run); known findings are re-confirmed too, but only once per label
 		doReplay := true
-		if kf != nil && knownMatched[kf.Label+"|"+kf.Case] > 0 {
+		if kf != nil && knownReplayed[kf.Label] > 0 {
 			doReplay = false
 		}
 		if replayed >= cr.replayBudget {
@@ -233,6 +245,9 @@ func (cr *CheckRun) finish() int {
 			}
 		}
 		if kf != nil {
+			if doReplay {
+				knownReplayed[kf.Label]++
+			}
 			knownMatched[kf.Label+"|"+kf.Case]++
 			if knownMatched[kf.Label+"|"+kf.Case] == 1 {
 				knownLines = append(knownLines, fmt.Sprintf("KNOWN-FINDING: property=%s %s", cr.ID, kf.What))
@@ -249,6 +264,15 @@ func (cr *CheckRun) finish() int {
 		fmt.Printf("  obligation %s\n  case %s (%d failing instances, first: %s)\n", v.Label, v.Case, len(g.vs), v.Fine)
 		if v.Why != "" {
 			fmt.Printf("  %s\n", v.Why)
+		}
+	}
+	if os.Getenv("GOSX_SLOW") != "" {
+		sort.Slice(cr.slow, func(i, j int) bool { return cr.slow[i].wall > cr.slow[j].wall })
+		for i, sj := range cr.slow {
+			if i >= 12 {
+				break
+			}
+			fmt.Printf("SLOW: wall %.1fs solver %.1fs paths %d %s\n", sj.wall, sj.solver, sj.paths, sj.tag)
 		}
 	}
 	for _, l := range knownLines {
